@@ -104,6 +104,7 @@ fn check_main(a: &Args) -> i32 {
 
     let known = batch::load_known(&verif.join("known_findings.json"));
     let mut unknown = 0usize;
+    let mut unminimised = 0usize;
     let mut known_hits: Vec<String> = vec![];
     for v in b.violations.iter().chain(e3_violations.iter()) {
         let sig = v.get("signature").cloned().unwrap_or(J::Null);
@@ -115,11 +116,18 @@ fn check_main(a: &Args) -> i32 {
             },
             None => {
                 unknown += 1;
-                let p = v.get("replay").and_then(|x| x.str()).unwrap_or("<none: over the per-shard replay cap>");
-                println!("VIOLATION property=C16 replay={p}");
-                println!("  signature: {}", sig.to_string_compact());
+                match v.get("replay").and_then(|x| x.str()) {
+                    Some(p) => {
+                        println!("VIOLATION property=C16 replay={p}");
+                        println!("  signature: {}", sig.to_string_compact());
+                    },
+                    None => unminimised += 1,
+                }
             },
         }
+    }
+    if unminimised > 0 {
+        println!("({unminimised} further violating runs were not minimised: over the per-shard replay cap)");
     }
     for what in &known_hits {
         println!("KNOWN-FINDING: property=C16 {what}");
